@@ -157,11 +157,11 @@ Theorem helpers_added_to_a_field_are_registered : forall tm sc ss ip a n ty d x 
   In ((ip' ++ [a])%list, T, f) (snd (sanitize tm sc ss ip)).
 Proof. exact added_helpers_are_registered. Qed.
 (* ... what is added are `__typename` and `id` only, and only when the client did not select the field on that level *)
-Theorem only_the_two_helpers_are_added : forall tm sc ss t f,
-  In f (snd (add_scrub_fields tm sc ss t)) -> f = "__typename" \/ f = "id".
+Theorem only_the_two_helpers_are_added : forall tm sc ss t is_fragment f,
+  In f (snd (add_scrub_fields tm sc ss t is_fragment)) -> f = "__typename" \/ f = "id".
 Proof. exact added_only_helpers. Qed.
-Theorem a_helper_is_added_only_when_missing : forall tm sc ss t f,
-  In f (snd (add_scrub_fields tm sc ss t)) -> has_direct ss f = false.
+Theorem a_helper_is_added_only_when_missing : forall tm sc ss t is_fragment f,
+  In f (snd (add_scrub_fields tm sc ss t is_fragment)) -> has_direct ss f = false.
 Proof. exact added_not_selected. Qed.
 (* no response key of a level is lost by the sanitizer: a field selected directly on a level has a field with its response
    key in what is left for that level (of several selections of one key the first wins: listed finding) *)
